@@ -10,13 +10,16 @@ EXPLANATION = ("Static MIR census over the workspace (mla, mlar, mla-bindings-c)
                "(R13.4) an `impl Read::read` returning a count produced by BrotliDecompressStream excludes 0 before returning Ok(count) mid-stream. "
                "(R13.5) every block decompressor of the compression reader is built on an inner reader that sync_inner_with_uncompressed_pos has just positioned absolutely "
                "(never where the previous decompressor happened to stop); (R13.6) a stream that delivered exactly UNCOMPRESSED_DATA_SIZE bytes is still handed to the decoder; (R13.7) = R10.5; "
-               "(R13.9) the count returned by a raw read is only ever compared with 0 (a short count is not the end of the source); (R13.8) on the write path (everything reachable from the writer layers' `impl Write`) no io::Error is rebuilt from a received io::Error without taking over its kind(): `Interrupted` from the destination stays retryable for write_all / io::copy / brotli. Equality of the resulting archives is runtime and not decided.")
+               "(R13.9) the count returned by a raw read is only ever compared with 0 (a short count is not the end of the source); (R13.10) an error of the destination that a writer keeps for later (Option<io::Error> stored from an `impl Write` function) is stored only on the not-Interrupted edge of a comparison of its kind(); (R13.8) on the write path (everything reachable from the writer layers' `impl Write`) no io::Error is rebuilt from a received io::Error without taking over its kind(): `Interrupted` from the destination stays retryable for write_all / io::copy / brotli. Equality of the resulting archives is runtime and not decided.")
 TRUSTED = ['brotli: BrotliResult::NeedsMoreOutput is returned only when the output window is full', 'rustc MIR', 'std::io::Write::write_all / io::copy / Read::read_exact / read_to_end loop over partial transfers and retry Interrupted', 'byteorder, bincode use the complete forms']
 ASSUMPTIONS = ['a sink or source respects the Read/Write contracts (count <= buffer length)']
 
 PKGS = ('mla', 'mlar', 'mla-bindings-c')
 RAW_W = {'write', 'write_vectored'}
 RAW_R = {'read', 'read_vectored', 'read_buf'}
+
+
+PROG = None
 
 
 def ok_payload_locals(body, call_blk):
@@ -50,9 +53,32 @@ def returns_count_of(body, call_blk, siblings=()):
         return False
     def reaches(l):
         return call_blk.idx in origins(body, [l]).calls
+    # `.and_then(|n| { ..; Ok(n) })`: the closure hands the count on unchanged (or fails): as transparent as inspect
+    transparent = ['inspect', 'map_err']
+    ats = [b for b in body.calls() if b.term.cmethod == 'and_then' and 'Result' in cnorm(b.term) and len(b.term.args) == 2]
+    if ats and PROG is not None:
+        def passes_count(t):
+            e = expr_of(body, t.args[1])
+            if e[0] != 'agg' or e[3].j.get('agg') != 'closure':
+                return False
+            C = PROG.body(body.pkg, e[3].j['closure'])
+            if C is None:
+                return False
+
+            def csrc(k, ob, bb):
+                if k == 'call' and ob.cmethod == 'from_residual':
+                    return True
+                if k == 'assign' and ob.kind == 'assign' and ob.rv.r == 'aggregate' and ob.rv.j.get('variant') == 'Err':
+                    return True
+                if k == 'assign' and ob.kind == 'assign' and ob.rv.r == 'aggregate' and ob.rv.j.get('variant') == 'Ok' and ob.rv.ops and ob.rv.ops[0].place is not None:
+                    return must_derive(C, ob.rv.ops[0].place[0], lambda k2, o2, b2: k2 == 'param' and o2 == 2)
+                return False
+            return must_derive(C, 0, csrc)
+        if all(passes_count(b.term) for b in ats):
+            transparent.append('and_then')
     # whole result moved / combinators
     if must_derive(body, 0, lambda k, ob, bb: is_src(k, ob, bb) or (k == 'assign' and ob.kind == 'assign' and ob.rv.r == 'aggregate' and ob.rv.j.get('variant') == 'Ok' and False),
-                   extra_transparent=('inspect', 'map_err')) and reaches(0):
+                   extra_transparent=tuple(transparent)) and reaches(0):
         return True
     oks = []
     other_defs = False
@@ -151,6 +177,8 @@ def decoder_zero_count_rule(prog, rep, RULE='R13.4'):
 
 
 def run(prog, rep, tier):
+    global PROG
+    PROG = prog
     # ---------------- R13.1 / R13.2 raw writes
     nw = 0
     for body in prog.bodies(PKGS):
@@ -389,6 +417,7 @@ def run(prog, rep, tier):
 
     # ---------------- R13.8 an error of the destination keeps its kind on the way up (write_all / io::copy / brotli retry only `Interrupted`)
     r13_8(prog, rep)
+    r13_10(prog, rep)
 
 
 def chunk_loads_complete(prog, rep, RULE='R13.3'):
@@ -416,6 +445,84 @@ def chunk_loads_complete(prog, rep, RULE='R13.3'):
                        'the chunk handed to the cipher is not filled by read_to_end on a bounded take of the inner reader: a source that returns fewer bytes than asked makes '
                        'an intact chunk fail its tag', body.loc(b.idx))
     rep.floor(RULE + '.chunk', nd, 2, 'decrypt sites in the encryption layer')
+
+
+OPT_IOERR = 'std::option::Option<std::io::Error>'
+
+
+def r13_10(prog, rep, RULE='R13.10'):
+    """A writer that keeps "the first failure" of its destination for later (an Option<io::Error> written from an `impl Write` function) must not keep an
+    `Interrupted`: the layers above retry that write and it succeeds, but the kept error would surface when the block is closed and fail a write that
+    an uninterrupted destination completes. Every such store sits on the not-equal edge of a comparison of the error's kind() with Interrupted."""
+    mla = prog.crates['mla']
+
+    def is_interrupted_operand(body, op):
+        if op.kind == 'const':
+            return (op.k.get('promoted_variant') or '').endswith('ErrorKind::Interrupted')
+        if op.place is None:
+            return False
+        o = origins(body, [op.place[0]], through_calls=False)
+        if any((k.get('promoted_variant') or '').endswith('ErrorKind::Interrupted') for k in o.consts):
+            return True
+        return any(a.j.get('variant') == 'Interrupted' for (_, _, a) in o.aggs)
+
+    def not_interrupted_edges(body):
+        out = []
+        for g in body.blocks:
+            r = branch_on_call(prog, body, g.idx)
+            if r and r[1].cmethod in ('eq', 'ne') and r[1].ctrait == 'std::cmp::PartialEq' and 'ErrorKind' in r[1].cargs and any(is_interrupted_operand(body, a) for a in r[1].args[:2]):
+                out.append((g.idx, r[3]))      # (branch block, target when the kinds differ)
+        for sbb, si in arm_of_enum_switch(prog, body, adt='std::io::ErrorKind'):
+            it = enum_arm_target(si, 'Interrupted')
+            if it is not None:
+                for v, tgt in list(si['arms'].items()) + ([('_', si['otherwise'])] if si.get('otherwise') is not None else []):
+                    if tgt != it:
+                        out.append((sbb, tgt))
+        return out
+
+    n = 0
+    for fnb in mla.bodies:
+        if fnb.kind == 'Closure' or fnb.impl_trait != 'std::io::Write' or fnb.name not in ('write', 'flush', 'write_all', 'write_vectored'):
+            continue
+        for body in [fnb] + prog.closures_of(fnb):
+            sites = []
+            for bl in body.blocks:
+                if bl.cleanup:
+                    continue
+                for i, st in enumerate(bl.stmts):
+                    if st.kind != 'assign' or not st.place[1]:
+                        continue
+                    last = st.place[1][-1]
+                    tgt_ty = None
+                    if last[0] == 'f':
+                        tgt_ty = str(last[4]) if len(last) > 4 else None
+                    elif last[0] == 'deref' and len(st.place[1]) == 1:
+                        tgt_ty = body.lty(st.place[0]).replace('&mut ', '', 1) if body.lty(st.place[0]).startswith('&mut ') else None
+                    if tgt_ty != OPT_IOERR:
+                        continue
+                    # storing None (take / reset) keeps nothing
+                    if st.rv.r == 'aggregate' and st.rv.j.get('variant') == 'None':
+                        continue
+                    if st.rv.r == 'use' and st.rv.ops[0].place is not None:
+                        ao = origins(body, [st.rv.ops[0].place[0]], through_calls=False)
+                        if ao.aggs and all(a.j.get('variant') == 'None' for (_, _, a) in ao.aggs):
+                            continue
+                    sites.append((bl.idx, 'store'))
+                t = bl.term
+                if t.kind == 'call' and t.cmethod in ('get_or_insert_with', 'get_or_insert', 'insert', 'replace') and t.args and t.args[0].place is not None and \
+                        body.lty(t.args[0].place[0]).replace('&mut ', '', 1) == OPT_IOERR:
+                    sites.append((bl.idx, t.cmethod))
+            if not sites:
+                continue
+            rep.fn(body)
+            edges = not_interrupted_edges(body)
+            for k, (bb, how) in enumerate(sites):
+                n += 1
+                ok = any(body.edge_dominates(e, bb) for e in edges)
+                rep.ob(RULE, ok, RULE + '|%s|kept-error#%d|not-interrupted' % (fnb.nkey, n - 1), 'the kept error is stored (%s) only when its kind is not Interrupted' % how if ok else
+                       'an error of the destination is kept for later (%s) without excluding ErrorKind::Interrupted: the interrupted write is retried and succeeds, but the kept '
+                       'error fails the archive when the block is closed -- a destination that reports an interruption no longer yields the same archive' % how, body.loc(bb))
+    rep.floor(RULE, n, 1, 'stores of a kept destination error in the writer layers')
 
 
 IOERR = ('std::io::Error', '&std::io::Error', '&mut std::io::Error')
